@@ -30,7 +30,7 @@ extern "C" __attribute__((noinline)) void h_retarget() {
   setMockTime(100000);
   const uint32_t LIMIT = 0x1f7fffff;
   uint32_t bits[6]; uint32_t times[6];
-  bits[0] = verif_cbool() ? LIMIT : (verif_cbool() ? 0x1e0fffff : 0x1d00ffff);
+  bits[0] = verif_cbool() ? LIMIT : (verif_cbool() ? 0x1f3fffff : 0x1e0fffff);   // the limit, half of it (a slow period is capped at the limit), a much harder one
   times[0] = 1000;
   t.bootstrapWithGenesis(mk(1, 0, times[0], bits[0]));
   for (int h = 1; h <= 3; h++) {                                               // heights 1..3: inside the interval
@@ -60,6 +60,19 @@ extern "C" __attribute__((noinline)) void h_retarget() {
   verif_check(t.acceptBlockHeader(next, st), 3);                               // a header carrying it is accepted
   ValidationState st2;
   verif_check(!t.acceptBlockHeader(mk(6, 4, times[3] + 10, expect ^ 1), st2), 4);  // any other difficulty is refused
+  // ---- the first block of the NEW period (height 5): unchanged difficulty, or the min-difficulty rule seen from behind a
+  // retarget block (the walk back stops at the retarget block even when it carries the pow-limit difficulty)
+  bits[4] = expect; times[4] = times[3] + 10;
+  times[5] = times[4] + verif_choice(0, 3) * 10;
+  uint32_t want5;
+  if (p.allowMin && times[5] > times[4] + 20) want5 = LIMIT;
+  else if (p.allowMin) { int k = 4; while (k > 0 && k % 4 != 0 && bits[k] == LIMIT) k--; want5 = bits[k]; }
+  else want5 = bits[4];
+  BtcBlock b5 = mk(7, 5, times[5], want5);
+  verif_check(getNextWorkRequired(*t.getBestChain().tip(), b5, static_cast<const BtcChainParams&>(p)) == want5, 6);
+  ValidationState st5;
+  verif_check(t.acceptBlockHeader(b5, st5), 7);
+  if (p.allowMin && expect == LIMIT && bits[3] != LIMIT && times[5] <= times[4] + 20) verif_cover(6);
   if (actual == 10) verif_cover(1);
   if (actual == 160) verif_cover(2);
   if (expect != bits[3]) verif_cover(3);
